@@ -76,7 +76,8 @@ class BuiltinBroachingCodeGenerator(BroachingCodeGenerator):
 
     def produce_code(self, signature: Signature, closure_name: str) -> tuple[str, Mapping[str, object]]:
         builder = CodeBuilder()
-        namespace = BuiltinCascadeNamespace(occupied=signature.parameters.keys())
+        # name of closure must not be shadowed by constant (e.g. coercer of nested model with the same name)
+        namespace = BuiltinCascadeNamespace(occupied={*signature.parameters.keys(), closure_name})
         state = self._create_state(namespace=namespace)
 
         namespace.add_outer_constant("_closure_signature", signature)
